@@ -147,6 +147,8 @@ def case_features(case, feats: Set[str]) -> List[str]:
         out.add("config.custom_names")
     if cfg.get("include_all_inputs") is False:
         out.add("config.prune")
+    if case.get("n_ops", 3) > 5:
+        out.add("scale.many_operations")
     return sorted(out)
 
 
@@ -470,9 +472,11 @@ def worker(case: Dict[str, Any]) -> CaseResult:
             warnings.simplefilter("ignore")
             # every 6th C04 case invokes the command the way the README shows it first: without a strategy argument
             bare = "C04" in props and case["idx"] % 6 == 0 and "strategy" not in case
-            gen = run_cli(root, None if bare else case.get("strategy", "client"), cfg)
+            gen = run_cli(root, None if bare else case.get("strategy", "client"), cfg, config_rel=case.get("config_rel"))
             if bare:
                 feats.append("cli.no_strategy_argument")
+            if case.get("config_rel"):
+                feats.append("cli.config_option")
         replay_case = dict(case)
         replay_case["_sdl"] = sdl
         replay_case["_queries"] = queries
@@ -916,6 +920,9 @@ def run_shared(prop: str, tier: str, seed: int, n_cases: int, rule: str, floors:
             c["dirty"] = sorted(set(c["dirty"]) | {"schema.force_scalar"})
         if case_hook:
             case_hook(c, i)
+        if i % 20 == 13 and prop in ("C01", "C02", "C04"):
+            # beyond the sizes of examples: a large schema, nine operations in one document, deeper nesting (counters reach two digits, many classes per module)
+            c.update(size="l", n_ops=9, max_depth=4, max_doc_chars=16000)
         cases.append(c)
 
     if prop in ("C01", "C02", "C04", "C05"):
@@ -1010,6 +1017,10 @@ def with_custom_operations(case: Dict[str, Any], i: int) -> None:
     if i % 9 == 4:
         case["cfg"] = dict(case["cfg"])
         case["cfg"]["include_comments"] = "stable" if (i // 9) % 2 == 0 else "timestamp"
+    if i % 10 == 8 and not case.get("extra_files"):
+        # the configuration lives in a file of its own, given with --config (README: "ariadne-codegen --config clients/pyproject.toml")
+        case["config_rel"] = ["conf/codegen.toml", "client-a.toml", "deep/er/pyproject.toml"][(i // 10) % 3]
+        case["_no_regen"] = True
     if i % 23 == 7:
         case["collide"] = "included-exceptions"
     elif i % 23 == 16:
